@@ -7,7 +7,9 @@
 
 #![allow(dead_code)]
 mod layers;
+mod nets;
 mod tensors;
+mod training;
 mod util;
 
 use serde_json::Value;
@@ -50,6 +52,8 @@ fn main() {
             match group {
                 "reshape" => tensors::record_reshape(seed, tier, &mut trace, &mut rep),
                 "arith" => tensors::record_arith(seed, tier, &mut trace, &mut rep),
+                "training" => training::record_training(seed, tier, &mut trace, &mut rep),
+                "threads" => training::record_threads(seed, tier, &mut trace, &mut rep),
                 _ => panic!("unknown record group {}", group),
             }
             let mut out = std::io::BufWriter::new(std::fs::File::create(&args[5]).unwrap());
@@ -71,6 +75,7 @@ fn dispatch(group: &str, case: &Value, rep: &mut util::Report, rng: &mut util::R
         "reshape" => tensors::replay_reshape(case, rep),
         "arith" => tensors::replay_arith(case, rep, rng),
         "layer" => layers::replay_layer(case, rep),
+        "training" => training::replay_training(case, rep, rng),
         _ => panic!("unknown group {}", group),
     }
 }
